@@ -3,8 +3,10 @@
    close-all markers (any nesting, overlap and repetition, multi-byte text): the text comes back
    and every closed marker yields one attribute whose range delimits exactly the text it enclosed,
    "enclosed" being defined on the document (Proofs/MarkupDocProofs.v).
-   Partial: markers with properties, self-closing markers, the replacement markers, the character
-   prefix and blanks at the edges of the text are outside that theorem; the correspondence family
+   Further down: the same with typed properties and self-closing markers, the implicit character
+   attribute (alone, with edge blanks, inside marker documents), the trimming rule of a self-closing marker.
+   Partial: the replacement markers, blanks at the edges of marker documents and the trimming rule
+   inside the document round trip are outside these theorems; the correspondence family
    'markupdoc' compares the implementation both with the model and - for structured documents - with
    the meaning the generator knows by construction. *)
 From Coq Require Import List ZArith NArith Bool.
